@@ -15,7 +15,7 @@ EXPLANATION = ('For each (version, level) the real make_final_message -> make_bl
                'by solver-proved linear summaries). The reference reads the zig-zag, de-interleaves by its own Table 9 and asserts: '
                'all RS syndromes S_0..S_(ec-1) of every block are 0, data codewords == input bits in order, remainder bits 0. '
                'unsat = holds for every data content of that shape; sat = concrete data bits, replayed on the real functions.')
-BOUNDS = {'quick': 'Micro M1-M4 all levels, versions 1-12 all levels, 5 large shapes (14-Q, 21-M, 27-H, 34-L, 40-H); all data bits symbolic',
+BOUNDS = {'quick': 'Micro M1-M4 all levels, versions 1-7 all levels, 6 larger shapes (10-M, 14-Q, 21-M, 27-H, 32-H, 40-H); all data bits symbolic',
           'thorough': 'all 168 (version, level) shapes; all data bits symbolic (no size bound)'}
 OUTSIDE = ('"corrects floor(ec/2) errors" is the textbook consequence of the codeword property (minimum distance ec+1) and is not '
            're-derived; mask/format/version info are C02/C06.')
@@ -39,9 +39,9 @@ def shapes():
 
 def jobs(tier, seed):
     out = [{'name': 'table-lemmas', 'kind': 'lemmas', 'cost': 5}]
-    big = {(14, 'Q'), (21, 'M'), (27, 'H'), (34, 'L'), (40, 'H')}
+    big = {(10, 'M'), (14, 'Q'), (21, 'M'), (27, 'H'), (32, 'H'), (40, 'H')}
     for v, lv in shapes():
-        if tier == 'quick' and not (v <= 12 or (v, lv) in big):
+        if tier == 'quick' and not (v <= 7 or (v, lv) in big):
             continue
         out.append({'name': f'{T.version_name(v)}-{lv}', 'kind': 'shape', 'v': v, 'level': lv, 'cost': T.total_codewords(v) ** 1.3})
     return out
